@@ -50,7 +50,16 @@ def opTextRoundtrip (j : Json) : M Json := do
   let container := (getStr j "container").toOption.getD "lists"
   let compatible := getBoolD j "compatible" false
   let es ← (← getArr j "events").toList.mapM (asTEvent container)
-  let content := renderFile compatible es
+  -- `delimiter=` (code points) / `columns=` (list of code point lists) when the call passes them
+  let delim ← match getOpt j "delimiter" with
+    | some d => do pure (some (← asCps d))
+    | none => pure none
+  let columns ← match getOpt j "columns" with
+    | some c => do pure (some (← asCpsList c))
+    | none => pure none
+  let content := match delim, columns with
+    | none, none => renderFile compatible es
+    | _, _ => renderFileWith (delim.getD [TAB]) (columns.getD defaultColumns) compatible es
   let start := getNatD j "start" 0
   let step := getNatD j "step" 1
   let parsed := match parseFile start step content with
